@@ -36,6 +36,14 @@ def streams(seed, tier):
         for lim in (limits if text not in proggen.EXPLODING else [l for l in limits if l <= 17]):
             for cap in caps:
                 cases.append(case_run(rng.randrange(2), state(exec=prog, int=[4], cfg=cfg(lim, cap)), 1, 0))
+    # every stack counts for the growth cap: instructions whose net growth comes from one particular stack
+    grow = ["( INPUT.READ )", "( INPUT.READ INPUT.READ )", "( 1 2 3 )", "( TRUE FALSE )", "( 1.5 2.5 )", "( A B )", "( INT[1] INT[2] )", "( BOOL[1] BOOL[0] )", "( FLOAT[1.0] FLOAT[2.0] )",
+            "( CODE.QUOTE A CODE.QUOTE B )", "( INPUT.READ BOOLVECTOR.DUP BOOLVECTOR.DUP )", "( 1 FOO.BAR 2 INTEGER.+ )"]
+    for text in grow:
+        prog = parse_prog(text, modelled)
+        for cap in (0, 1, 2):
+            for lim in (3, 100):
+                cases.append(case_run(rng.randrange(2), state(exec=prog, input=[([1], [True, False]), ([2], [False])], cfg=cfg(lim, cap)), 1, 0))
     out = [Stream("limit-grid", "runacct", "runacct.check", cases,
                   "diverging (EXEC.Y), exploding (DUP+LIST/CAT) and terminating programs x eval_push_limit in %s x growth_cap in %s" % (limits, caps))]
     n = {"quick": 1500, "thorough": 20000, "search": 10000}[tier]
@@ -47,6 +55,8 @@ def streams(seed, tier):
             k = rng.choice([99, 100, 101, 150, 400, 1100])
             body = [rng.choice([Z(i % 7), B(i % 2 == 0), I("NOOP"), I("INTEGER.+"), I("INTEGER.POP")]) for i in range(k)]
             st["exec"] = rng.choice([[L(*body)], body, [L(*body[:k // 2]), L(*body[k // 2:])]])
+        if rng.random() < 0.1:       # an instruction item whose name is not registered is skipped like a NOOP
+            st["exec"] = list(st["exec"]) + [I("FOO.BAR")] if rng.random() < 0.5 else [I("FOO.BAR")] + list(st["exec"])
         if rng.random() < 0.05:      # nothing to run: a step on an empty EXEC stack reports completion and changes nothing
             st["exec"] = []
         st["cfg"] = cfg(rng.choice(limits + [30, 60]), rng.choice(caps + [3, 8]))
